@@ -384,8 +384,9 @@ func (rn *rnode) rremove(topic []byte) error {
 		return err
 	}
 
-	// If there are no more rnodes to the next level we just visited let's remove it
-	if len(n.rnodes) == 0 {
+	// If there are no more rnodes to the next level we just visited and it holds
+	// no retained message itself let's remove it
+	if len(n.rnodes) == 0 && n.msg == nil {
 		delete(rn.rnodes, level)
 	}
 
